@@ -54,20 +54,15 @@ def caret_ok(ctx, p, i, line, col):
     """The context shows the lines of p and a caret under column col of the marked line."""
     rows = ctx.split('\n')
     plines = re.split(r'\r\n|\r|\n', p)
-    multi = len(plines) > 1
-    marked = [k for k, r in enumerate(rows) if r.lstrip(' ') == '^' or r.strip() == '^']
-    if len(marked) != 1:
-        return False
-    c = marked[0]
-    shown = rows[:c] + rows[c + 1:]
-    if multi:
-        if [r[4:] for r in shown] != plines:
-            return False
-        if [r[:4] for r in shown] != ['--> ' if k == line - 1 else '    ' for k in range(len(shown))]:
-            return False
+    if len(plines) > 1:
         in_crlf = i > 0 and i < len(p) and p[i - 1] == '\r' and p[i] == '\n'
-        return c == line and rows[c] == ' ' * (4 + col - 1 - (1 if in_crlf else 0)) + '^'
-    return shown == plines and rows[c] == ' ' * (col - 1) + '^'
+        want = []
+        for k, pl in enumerate(plines):
+            want.append(('--> ' if k == line - 1 else '    ') + pl)
+            if k == line - 1:
+                want.append(' ' * (4 + col - 1 - (1 if in_crlf else 0)) + '^')
+        return rows == want
+    return rows == [p, ' ' * (col - 1) + '^']
 
 
 class Alarm(Exception):
@@ -103,10 +98,15 @@ def run(chk):
     # (b) raised errors
     err_total = 0
     bads = []
-    for _ in range(1500 if quick else 40000):
-        s = spell.render(spell.g_selector(rng), rng, 1)
-        cut = rng.randint(0, len(s))
-        t = s[:cut] + rng.choice(['', '', ')', ',', '>', '(', '[', '"', ':', '!', '\n', '\r\n  ']) + (s[cut:] if rng.random() < 0.3 else '')
+    # past false alarm of this oracle (a pattern line that itself looks like a caret row) and similar shapes, run first
+    regress = ['/* * / */[\t\x80|a\\\\b\n^\n', 'a\n^', '^\n!', 'a\n    ^\n!', '--> a\n!', 'a,\n  ^\n^\n)', 'a\r\n^\r\n,', '\n^\n^\n(']
+    for it in range((1500 if quick else 40000) + len(regress)):
+        if it < len(regress):
+            t = regress[it]
+        else:
+            s = spell.render(spell.g_selector(rng), rng, 1)
+            cut = rng.randint(0, len(s))
+            t = s[:cut] + rng.choice(['', '', ')', ',', '>', '(', '[', '"', ':', '!', '\n', '\r\n  ', '\n^\n', '\n  ^']) + (s[cut:] if rng.random() < 0.3 else '')
         try:
             cp.CSSParser(t).process_selectors()
         except util.SelectorSyntaxError as e:
@@ -130,6 +130,12 @@ def run(chk):
     sels = ['[a=b]', ':nth-child(-n+3)', 'a > b:nth-last-of-type(-2n - 1)', '[type="A b" i]', ':is(a, b):not(c)[x~="y z"]',
             'p:lang("de, x", en)', ':-soup-contains("a\'b", \'c"d\')', 'x|y[z|w$="\\"q"]:has(> a + b)', ':checked', ':dir(rtl)',
             '[a="\\a b"]', ':nth-child(2n+1 of .x, #y)']
+    # values long enough for re.Pattern.__repr__ to truncate its source at 200 characters (an unterminated quote in the repr),
+    # full of characters re.escape() escapes
+    for _ in range(6 if quick else 60):
+        long = ''.join(rng.choice(['a', 'b c', '-', '.', ' ', 'x-y.z', ';', ': ', '/', '"', "'", '\\\\']) for _ in range(rng.randint(120, 260)))
+        long = long.replace('"', '\\"')
+        sels.append(rng.choice(['[style="%s"]', 'a[href^="%s"]', 'p, :not([style*="%s"])', '[a~="x"][b="%s" i]', ':is([t$="%s"])']) % long)
     for _ in range(150 if quick else 4000):
         sels.append(gen.gen_list(rng, 0, {'nth': True}))
     for s in sels:
@@ -212,4 +218,18 @@ def replay(chk, path):
         if not ok:
             print(f'VIOLATION property={PID} replay={path}')
             return 1
+    elif 'message' in data:
+        t = data['pattern']
+        try:
+            cp.CSSParser(t).process_selectors()
+            print(json.dumps({'py': 'compiled'}))
+        except util.SelectorSyntaxError as e:
+            m = re.search(r'position (\d+)', str(e).split('\n')[0])
+            pat = t.replace('\x00', '\ufffd')
+            off = int(m.group(1))
+            ok = (e.line, e.col) == oracle(pat, off) and caret_ok(e.context, pat, off, e.line, e.col)
+            print(json.dumps({'py': [e.line, e.col, e.context], 'ok': ok}))
+            if not ok:
+                print(f'VIOLATION property={PID} replay={path}')
+                return 1
     return 0
